@@ -221,13 +221,18 @@ fn index_name_value(value: ast::Value, ctx: &mut IndexCtx) -> Option<(EcoString,
         // `def "name"`: the name is what stands between the quotes of a single string
         ast::SimpleValue::String(string) if value.inner_values().count() == 1 => {
             let name = string.value();
-            let range = string.syntax().first_token()?.text_range();
+            let token = string.syntax().first_token()?;
+            // (several adjacent strings, or a quote escaped at an end, make a name that is not
+            // the text of one token)
+            if name.is_empty() || token.text() != format!("\"{name}\"") {
+                return None;
+            }
+            let range = token.text_range();
             let inner = TextRange::new(
                 range.start() + TextSize::from(1),
-                range.end().checked_sub(TextSize::from(1))?,
+                range.end() - TextSize::from(1),
             );
-            (!name.is_empty() && usize::from(inner.len()) == name.len())
-                .then(|| (name, FileRange::new(ctx.current_file_id(), inner)))
+            Some((name, FileRange::new(ctx.current_file_id(), inner)))
         }
         _ => None,
     }
